@@ -13,3 +13,6 @@ register_driver('peer.Peer.', 'peers_subscribe.py')
 register_driver('peers.PeerManager._get_recent_good_peers.', 'peers_subscribe.py')
 register_driver('peers.PeerManager.on_peers_subscribe.', 'peers_subscribe.py')
 register_driver('daemon.Daemon.', 'daemon_send.py')
+register_driver('tx.', 'tx_parse.py')
+register_driver('util.pack_var', 'tx_parse.py')
+register_driver('harness.varint', 'tx_parse.py')
